@@ -202,6 +202,7 @@ type lfEngine struct {
 	pure        map[*ssa.Function]int                             // 0 unknown, 1 pure, 2 impure
 	loopsSeen   map[string]string                                 // loop key → termination verdict
 	onHeapStore func(st *lfState, x *ssa.Store, p vPtr, sv lfVal) // observer of stores through pointers (rules that ask the engine about one store)
+	onEnter     func(st *lfState, callee *ssa.Function)           // observer of calls interpreted inline (may mark the state's trail)
 	loopPend    map[string]*Loop                                  // loops with no syntactic ranking argument yet: decided by resolveLoops from sliceLow
 	sliceLow    map[*ssa.Slice]int8                               // s[k:] executed: +1 when k ≥ 1 was entailed in every state that reached it, -1 otherwise
 	loopPos     map[string]token.Pos
@@ -1332,6 +1333,16 @@ func (e *lfEngine) execFrom(fr *lfFrame, st *lfState, b, from *ssa.BasicBlock, s
 				return
 			}
 			e.step(fr, st, in)
+		case *ssa.UnOp:
+			// a read from a package-level constant table (array or slice of the module, never
+			// written outside its initialiser): the value is the initialiser's, one state per
+			// feasible index when the index is symbolic
+			if x.Op == token.MUL && e.tableLoad(fr, st, x, func(st2 *lfState, fr2 *lfFrame) {
+				e.execFrom(fr2, st2, b, from, i+1, k)
+			}) {
+				return
+			}
+			e.step(fr, st, in)
 		case *ssa.Call:
 			// calls may fork (inlined callees with several return states)
 			e.doCall(fr, st, x, func(st2 *lfState, res lfVal, fr2 *lfFrame) {
@@ -1587,6 +1598,9 @@ func shortQual(p *types.Package) string { return p.Name() }
 // non-nil arm) is safe when *T is the only module type whose LayerType()
 // returns LT (gopacket contract: Layer(t) returns a layer with LayerType()==t).
 func (e *lfEngine) assertJustified(x *ssa.TypeAssert) (string, bool) {
+	if why, ok, handled := e.assertJustifiedVia(x); handled {
+		return why, ok
+	}
 	call, ok := x.X.(*ssa.Call)
 	if !ok || !call.Call.IsInvoke() || call.Call.Method.Name() != "Layer" || len(call.Call.Args) != 1 {
 		return "operand is not the result of gopacket.Packet.Layer", false
@@ -2767,4 +2781,330 @@ func (e *lfEngine) nameByType(obj int, t types.Type) {
 		}
 		e.tracked[obj] = pfx
 	}
+}
+
+
+var (
+	roGlobalMu    sync.Mutex
+	roGlobalCache = map[*ssa.Global]bool{}
+)
+
+// readOnlyGlobal: a package-level variable of the module that no function other than the
+// package initialisers stores to or through, and whose address is not handed on.
+func (e *lfEngine) readOnlyGlobal(g *ssa.Global) bool {
+	roGlobalMu.Lock()
+	if v, ok := roGlobalCache[g]; ok {
+		roGlobalMu.Unlock()
+		return v
+	}
+	roGlobalMu.Unlock()
+	ro := g.Pkg != nil && strings.HasPrefix(g.Pkg.Pkg.Path(), modPath)
+	if ro {
+		for _, fn := range e.c.ModFn {
+			if fn.Blocks == nil || fn.Name() == "init" {
+				continue
+			}
+			for _, b := range fn.Blocks {
+				for _, in := range b.Instrs {
+					switch x := in.(type) {
+					case *ssa.Store:
+						if apOf(x.Addr).Root == ssa.Value(g) {
+							ro = false
+						}
+					case *ssa.MapUpdate:
+						if apOf(x.Map).Root == ssa.Value(g) {
+							ro = false
+						}
+					}
+				}
+			}
+		}
+	}
+	roGlobalMu.Lock()
+	roGlobalCache[g] = ro
+	roGlobalMu.Unlock()
+	return ro
+}
+
+// tableLoad: x = *(&table[idx].f.g…) with table a read-only package-level array or slice.
+func (e *lfEngine) tableLoad(fr *lfFrame, st *lfState, x *ssa.UnOp, cont func(*lfState, *lfFrame)) bool {
+	var fields []string
+	addr := x.X
+	for i := 0; i < 8; i++ {
+		// the element's address may have been taken once and kept in a local (flag := &table[i])
+		fa, ok := addr.(*ssa.FieldAddr)
+		if !ok {
+			break
+		}
+		f := structField(fa.X.Type(), fa.Field)
+		if f == nil {
+			return false
+		}
+		fields = append([]string{f.Name()}, fields...)
+		addr = fa.X
+	}
+	ia, ok := addr.(*ssa.IndexAddr)
+	if !ok {
+		return false
+	}
+	var g *ssa.Global
+	switch b := ia.X.(type) {
+	case *ssa.Global:
+		g = b
+	case *ssa.UnOp:
+		if b.Op == token.MUL {
+			g, _ = b.X.(*ssa.Global)
+		}
+	}
+	if g == nil || !e.readOnlyGlobal(g) {
+		return false
+	}
+	if e.initR == nil {
+		e.initR = newInitReader(e.c)
+	}
+	tbl := e.initR.global(g)
+	if tbl == nil || tbl.Kind != "slice" || len(tbl.Elems) == 0 || len(tbl.Elems) > 64 {
+		return false
+	}
+	idx, isInt := e.val(fr, st, ia.Index).(vInt)
+	if !isInt {
+		return false
+	}
+	valueOf := func(k int) (lfVal, bool) {
+		gv := tbl.Elems[k]
+		for _, f := range fields {
+			if gv == nil || (gv.Kind != "struct" && gv.Kind != "zero") {
+				return nil, false
+			}
+			if gv.Kind == "zero" {
+				continue
+			}
+			next, has := gv.Fields[f]
+			if !has {
+				// a field the literal does not mention holds its zero value
+				next = &GVal{Kind: "zero"}
+			}
+			gv = next
+		}
+		if gv == nil {
+			return nil, false
+		}
+		if gv.Kind == "zero" {
+			if bt, ok := x.Type().Underlying().(*types.Basic); ok {
+				switch {
+				case bt.Info()&types.IsBoolean != 0:
+					return vBoolConst(false), true
+				case bt.Info()&types.IsInteger != 0:
+					out := vInt{E: linConst(0)}
+					if e.bits {
+						if w := typeBits(x.Type().Underlying()); w > 0 && w <= 64 {
+							out = e.withBits(out, bvConst(0, w))
+						}
+					}
+					return out, true
+				}
+			}
+			return nil, false
+		}
+		switch gv.Kind {
+		case "const":
+			if gv.Const == nil {
+				return nil, false
+			}
+			switch gv.Const.Kind() {
+			case constant.Int:
+				v, ok := constant.Int64Val(gv.Const)
+				if !ok {
+					return nil, false
+				}
+				out := vInt{E: linConst(v)}
+				if e.bits {
+					if w := typeBits(x.Type().Underlying()); w > 0 && w <= 64 {
+						out = e.withBits(out, bvConst(v, w))
+					}
+				}
+				return out, true
+			case constant.Bool:
+				return vBoolConst(constant.BoolVal(gv.Const)), true
+			}
+		case "func":
+			if gv.Func == nil {
+				return nil, false
+			}
+			if _, isIface := x.Type().Underlying().(*types.Interface); isIface {
+				return vNilable{ID: e.id(), Nil: 2, Inner: vFunc{Fn: gv.Func}}, true
+			}
+			return vFunc{Fn: gv.Func}, true
+		}
+		return nil, false
+	}
+	if k, isK := idx.E.isConst(); isK {
+		if k < 0 || int(k) >= len(tbl.Elems) {
+			return false
+		}
+		v, ok := valueOf(int(k))
+		if !ok {
+			return false
+		}
+		fr.env[x] = v
+		cont(st, fr)
+		return true
+	}
+	// every element must be readable, else leave the load to the generic model
+	vals := make([]lfVal, len(tbl.Elems))
+	for k := range tbl.Elems {
+		v, ok := valueOf(k)
+		if !ok {
+			return false
+		}
+		vals[k] = v
+	}
+	forked := false
+	for k := range tbl.Elems {
+		cs := []Cons{geq(idx.E, linConst(int64(k))), leq(idx.E, linConst(int64(k)))}
+		if infeasibleWith(st.cons, cs...) {
+			continue
+		}
+		s2 := st.clone()
+		s2.cons = append(s2.cons, cs...)
+		s2.trail = append(s2.trail, fmt.Sprintf("%s[%d]", g.Name(), k))
+		f2 := fr.cloneEnv()
+		f2.env[x] = vals[k]
+		forked = true
+		cont(s2, f2)
+	}
+	return forked
+}
+
+
+// assertJustifiedVia: the asserted value is the first result of a module function that hands
+// back what gopacket.Packet.Layer(t) gave it (or nil together with an error), t being a
+// package-level layer type — written in the function, or held in a field of the read-only
+// package-level descriptor the function is called on. The caller must have examined the
+// error before asserting. handled=false when the operand does not have this form.
+func (e *lfEngine) assertJustifiedVia(x *ssa.TypeAssert) (why string, ok bool, handled bool) {
+	ex, isEx := x.X.(*ssa.Extract)
+	if !isEx || ex.Index != 0 {
+		return "", false, false
+	}
+	call, isCall := ex.Tuple.(*ssa.Call)
+	if !isCall {
+		return "", false, false
+	}
+	callee := call.Call.StaticCallee()
+	if callee == nil || callee.Blocks == nil || !e.c.InModule(callee) || callee.Signature.Results().Len() != 2 {
+		return "", false, false
+	}
+	// the caller looked at the error first
+	errTested := false
+	for _, ref := range *call.Referrers() {
+		e2, ok := ref.(*ssa.Extract)
+		if !ok || e2.Index != 1 {
+			continue
+		}
+		for _, r2 := range *e2.Referrers() {
+			if bo, ok := r2.(*ssa.BinOp); ok && (bo.Op == token.EQL || bo.Op == token.NEQ) && (isNilConst(bo.X) || isNilConst(bo.Y)) && mustPrecede(x.Parent(), bo, x) {
+				errTested = true
+			}
+		}
+	}
+	if !errTested {
+		return "the helper's error is not examined before the assertion", false, true
+	}
+	var globals []*ssa.Global
+	n := 0
+	for _, ret := range returnsOf(callee) {
+		if len(ret.Results) != 2 {
+			return "", false, false
+		}
+		if isNilConst(ret.Results[0]) {
+			continue
+		}
+		if !isNilConst(ret.Results[1]) {
+			return "the helper returns a layer together with an error", false, true
+		}
+		lc, isL := ret.Results[0].(*ssa.Call)
+		if !isL || !lc.Call.IsInvoke() || lc.Call.Method.Name() != "Layer" || len(lc.Call.Args) != 1 {
+			return "the helper's result is not what gopacket.Packet.Layer returned", false, true
+		}
+		// compared with nil in the helper before it is returned
+		tested := false
+		for _, ref := range *lc.Referrers() {
+			if bo, ok := ref.(*ssa.BinOp); ok && (bo.Op == token.EQL || bo.Op == token.NEQ) && (isNilConst(bo.X) || isNilConst(bo.Y)) && mustPrecede(callee, bo, ret) {
+				tested = true
+			}
+		}
+		if !tested {
+			return "the helper does not compare the layer with nil", false, true
+		}
+		n++
+		ld, isLd := lc.Call.Args[0].(*ssa.UnOp)
+		if !isLd || ld.Op != token.MUL {
+			return "layer type is not a package-level layer type", false, true
+		}
+		switch a := ld.X.(type) {
+		case *ssa.Global:
+			globals = append(globals, a)
+		case *ssa.FieldAddr:
+			// a field of the descriptor the helper was called on
+			if len(callee.Params) == 0 || a.X != ssa.Value(callee.Params[0]) || len(call.Call.Args) == 0 {
+				return "layer type is not a package-level layer type", false, true
+			}
+			var desc *ssa.Global
+			switch r := call.Call.Args[0].(type) {
+			case *ssa.Global:
+				desc = r
+			case *ssa.UnOp:
+				desc, _ = r.X.(*ssa.Global)
+			}
+			f := structField(a.X.Type(), a.Field)
+			if desc == nil || f == nil || !e.readOnlyGlobal(desc) {
+				return "layer type is held in something other than a read-only package-level descriptor", false, true
+			}
+			found := false
+			for _, st := range fieldStores[f] {
+				fa := st.Addr.(*ssa.FieldAddr)
+				if fa.X != ssa.Value(desc) {
+					continue
+				}
+				if l2, ok := st.Val.(*ssa.UnOp); ok && l2.Op == token.MUL {
+					if g, ok := l2.X.(*ssa.Global); ok {
+						globals = append(globals, g)
+						found = true
+					}
+				}
+			}
+			if !found {
+				return "the descriptor's layer type is not initialised from a package-level layer type", false, true
+			}
+		default:
+			return "layer type is not a package-level layer type", false, true
+		}
+	}
+	if n == 0 {
+		return "the helper never returns a layer", false, true
+	}
+	for _, g := range globals {
+		m := 0
+		for _, fn := range e.c.LibFuncs() {
+			if fn.Name() != "LayerType" || fn.Signature.Recv() == nil {
+				continue
+			}
+			for _, ret := range returnsOf(fn) {
+				for _, v := range possibleValues(ret.Results[0]) {
+					if l2, ok := v.(*ssa.UnOp); ok && l2.X == ssa.Value(g) {
+						rt := fn.Signature.Recv().Type()
+						if !types.Identical(rt, x.AssertedType) {
+							return "another type (" + types.TypeString(rt, shortQual) + ") also reports this layer type", false, true
+						}
+						m++
+					}
+				}
+			}
+		}
+		if m == 0 {
+			return "no module type reports this layer type", false, true
+		}
+	}
+	return "", true, true
 }
